@@ -153,7 +153,20 @@ pub fn parse_conf(conf: &str, filename: &str) -> Result<ConfigNode, ConfigError>
     }
 
     // Parses the main section
-    parse_section("server", &mut lines, filename)
+    let server = parse_section("server", &mut lines, filename)?;
+
+    // Only comments and blank lines may follow the end of the `server` section
+    while let Some(line) = lines.next() {
+        if !clean_up(line).is_empty() {
+            return Err(ConfigError::new(
+                "Unexpected content after the end of the `server` section",
+                filename,
+                lines.current_line(),
+            ));
+        }
+    }
+
+    Ok(server)
 }
 
 /// Recursively parses a section of the configuration.
@@ -281,6 +294,13 @@ fn include(path: &str, containing_file: &str, line: u64) -> Result<Vec<ConfigNod
 
             let mut iter = TracebackIterator::from(buf.lines());
             let parsed_node = parse_section("temp_included_section", &mut iter, path)?;
+
+            // The `}` appended above must be what ended the section, otherwise the file
+            // closed a section which it never opened and the rest of it would be lost
+            let end_line = iter.current_line();
+            if iter.next().is_some() {
+                return Err(ConfigError::new("Unexpected `}`", path, end_line));
+            }
 
             match parsed_node {
                 ConfigNode::Section(_, children) => Ok(children),
